@@ -313,3 +313,34 @@ func HarnessC15SendRouter(a []int) {
 	}
 	verifCover("C15.sendrouter.end")
 }
+
+func init() {
+	verifHarnesses["HarnessC16Origin"] = HarnessC16Origin
+}
+
+// HarnessC16Origin: the tunnel-socket receiver (bound to one peer) surfaces exactly the datagrams
+// that come from that peer's address and port; sender host octet and port are symbolic.
+func HarnessC16Origin(a []int) {
+	peer := &net.UDPAddr{IP: net.IP{0, 0, 0, 0, 0, 0, 0, 0, 0, 0, 0xff, 0xff, 192, 0, 2, 1}, Port: 3671}
+	v1, b1 := c16Frame(0)
+	v2, b2 := c16Frame(1)
+	host, port := nondetU8(), int(nondetU16())
+	verifDatagramFrom(b1, host, port)
+	verifDatagramFrom(b2, 1, 3671)
+	inbound := make(chan Service)
+	go serveUDPSocket(&net.UDPConn{}, peer, inbound)
+	fromPeer := host == 1 && port == 3671
+	got, open := <-inbound
+	verifAssert("C16.origin.second_always_arrives", open)
+	if fromPeer {
+		verifCover("C16.origin.accepted")
+		verifAssert("C16.origin.first_from_peer_surfaces", c16Same(v1, got))
+		got, open = <-inbound
+		verifAssert("C16.origin.second_always_arrives", open && c16Same(v2, got))
+	} else {
+		verifCover("C16.origin.dropped")
+		verifAssert("C16.origin.foreign_sender_dropped", c16Same(v2, got))
+	}
+	_, open = <-inbound
+	verifAssert("C16.origin.closed_after_error", !open)
+}
